@@ -476,7 +476,48 @@ Section Fold.
                 end
     end.
 
-  Definition pe_concat st (n : node) : pe_out :=
+  (* same_except_axis(operand, reference) of the repaired evaluator: the dims other than the concatenation axis are KNOWN to
+     be equal (same int, or same non-None name), ranks equal, axis in range *)
+  Definition dim_known_eq (d r : dim) : bool :=
+    match d, r with
+    | DInt a, DInt b => Z.eqb a b
+    | DSym a, DSym b => String.eqb a b
+    | _, _ => false
+    end.
+  Definition same_except_axis st (axis : Z) (x r : option vname) : bool :=
+    match x, r with
+    | Some x, Some r =>
+      match get_shape st x, get_shape st r with
+      | Some s, Some rs =>
+        let rank := zlen s in
+        Nat.eqb (List.length s) (List.length rs) && Z.leb (- rank) axis && Z.ltb axis rank &&
+        (let k := Z.to_nat (Z.modulo axis rank) in
+         (fix go (i : nat) (a b : list dim) : bool :=
+            match a, b with
+            | d :: a', e :: b' => (Nat.eqb i k || dim_known_eq d e) && go (S i) a' b'
+            | _, _ => true
+            end) O s rs)
+      | _, _ => false
+      end
+    | _, _ => false
+    end.
+  Fixpoint first_false (l : list bool) (i : nat) : option nat :=
+    match l with [] => None | b :: t => if b then first_false t (S i) else Some i end.
+
+  (* which operands survive.  as-read (before fix 37f3956): every operand annotated 0 on the axis is dropped.
+     repaired: a zero-size operand is dropped only when same_except_axis holds against the reference operand (the first
+     operand that is not zero-size, or operand 0 when all are) - which is itself never dropped *)
+  Definition concat_kept st (fixed : bool) (axis : Z) (ins : list (option vname)) : list (option vname) :=
+    let zero := map (has_zero_size st axis) ins in
+    if fixed then
+      let ref_index := match first_false zero O with Some i => i | None => O end in
+      let reference := match nth_error ins ref_index with Some r => r | None => None end in
+      map (fun p => fst (snd p))
+          (filter (fun p => let '(i, (x, z)) := p in negb z || Nat.eqb i ref_index || negb (same_except_axis st axis x reference))
+                  (combine (seq O (List.length ins)) (combine ins zero)))
+    else filter (fun x => negb (has_zero_size st axis x)) ins.
+
+  Definition pe_concat_variant (fixed : bool) st (n : node) : pe_out :=
     match n_ins n, n_outs n with
     | [Some x], _ => repl_identity st n x
     | [None], _ => PUnmodelled
@@ -484,13 +525,20 @@ Section Fold.
       match int_attr n "axis" None with
       | None => PNone st
       | Some axis =>
-        let kept := filter (fun x => negb (has_zero_size st axis x)) ins in
+        let kept := concat_kept st fixed axis ins in
         if negb (Nat.eqb (List.length kept) (List.length ins)) then
-          match kept, ins with
-          | _ :: _, _ => PRepl st [mk "Concat" kept [y] [("axis", AInt axis)]]
-          | [], Some x :: _ => PRepl st [mk "Identity" [Some x] [y] []]
-          | [], _ => PUnmodelled
-          end
+          if fixed then
+            match kept with
+            | [Some x] => PRepl st [mk "Identity" [Some x] [y] []]
+            | [None] => PUnmodelled
+            | _ => PRepl st [mk "Concat" kept [y] [("axis", AInt axis)]]
+            end
+          else
+            match kept, ins with
+            | _ :: _, _ => PRepl st [mk "Concat" kept [y] [("axis", AInt axis)]]
+            | [], Some x :: _ => PRepl st [mk "Identity" [Some x] [y] []]
+            | [], _ => PUnmodelled
+            end
         else if negb (Z.eqb axis 0) then PNone st
         else
           let shapes := map (shape_value st) ins in
@@ -500,6 +548,8 @@ Section Fold.
       end
     | _, [] => PNone st
     end.
+  (* the variant the current source is in (Gen/FoldTables.v: concat_drop_checks_other_dims, read by the translator) *)
+  Definition pe_concat st (n : node) : pe_out := pe_concat_variant concat_drop_checks_other_dims st n.
 
   Definition pe_sequence_construct st (n : node) : pe_out :=
     match out0 n with Some y => PNone (set_sym st y (SSeq (n_ins n))) | None => PNone st end.
